@@ -46,7 +46,15 @@ func runSolver(parent context.Context, sc solverCfg, file string, timeoutS int) 
 	b, _ := cmd.CombinedOutput()
 	ms = time.Since(start).Milliseconds()
 	out = string(b)
-	first := strings.TrimSpace(strings.SplitN(out, "\n", 2)[0])
+	first := ""
+	for _, ln := range strings.Split(out, "\n") {
+		ln = strings.TrimSpace(ln)
+		if ln == "" || strings.HasPrefix(ln, "WARNING") || strings.HasPrefix(ln, "(warning") {
+			continue
+		}
+		first = ln
+		break
+	}
 	switch first {
 	case "unsat", "sat", "unknown":
 		return first, out, ms
